@@ -933,6 +933,13 @@ def _prefix_priority(h, N, side):
             if t.state != "granted":
                 break
             h.do_put(t, key=ctx.choice(2, "key") if ad.filt else None)
+        # a late request, then one more item: the late one must not overtake an earlier request of the same priority
+        if ctx.choice(2, "late-request?"):
+            h.do_reserve_get()
+            if ctx.choice(2, "one-more-item?"):
+                t = h.do_reserve_put()
+                if t.state == "granted":
+                    h.do_put(t, key=ctx.choice(2, "key") if ad.filt else None)
     else:
         # fill the store first: capacity is bounded in this family
         c = int(h.cap)
@@ -966,7 +973,7 @@ def _prefix_arrivals(h, N):
 
 
 def scenario(store, family, N=3, K=2, oracles=("C01", "C02", "C04", "C05", "C06"), cap_max=None, cap_fixed=None,
-             sym_prio=False, R2=2, USE=True, TR=True, twin=False, RMAX=9, S=2, EARLY=False):
+             sym_prio=False, R2=2, USE=True, TR=True, twin=False, RMAX=9, S=2, EARLY=False, DRAIN=True):
     """returns fn(ctx) exploring prefix(family, N) followed by K free calls on the given store."""
     def fn(ctx):
         ad = adapter(store)
@@ -999,6 +1006,18 @@ def scenario(store, family, N=3, K=2, oracles=("C01", "C02", "C04", "C05", "C06"
             h.advance(ad.final_gap(h))
         else:
             h.drain()
+        if DRAIN and family in ("retrieval", "both"):
+            # take out whatever is retrievable, one reservation at a time: an order the store has silently corrupted shows here
+            for t in list(h.toks):
+                if t.kind == "get" and t.state == "pending":
+                    h.do_cancel(t)
+            for _ in range(N + 2):
+                t = h.do_reserve_get()
+                if t.state != "granted":
+                    h.do_cancel(t)
+                    break
+                h.do_get(t)
+            ctx.hit("drained")
         ctx.hit("complete")
         if twin:
             ctx.fail("TWIN:reached-end")
